@@ -80,6 +80,12 @@ package commitment
 //@   loop 3 invariant best >= 0 && (best == 0 || (inDom(votes, hash) && votes[hash] == best))
 //@   loop 3 invariant forall h HashT :: visited(h) ==> votes[h] <= best
 
+//@ func NewPool
+//@   props C11
+//@   modifies nothing
+//@   ensures result != nil && fresh(result) && result.HighestRank == 18446744073709551615 && !result.Discrepancy && result.SchedulerCommitments == nil
+//@   note a new pool holds no commitment, no vote, no highest-ranked scheduler and is in discrepancy detection mode
+
 //@ ghost type ECT = *ExecutorCommitment
 //@ ghost var GPooled map[*ExecutorCommitment]bool
 // GPooled[e]: the commitment OBJECT e was handed to a pool (the pool keeps the pointer: SchedulerCommitment.Commitment)
